@@ -63,11 +63,11 @@ Definition no_ret_true (outs : list out) := existsb (fun x => match x with Ret t
 Theorem run_chk_C01 : forall c ops s U, InvL U (seqs s) (events s) -> chk_C01 U ops (run c s ops) = true.
 Proof.
   intros c. induction ops as [|o ops IH]; intros s U HI; cbn [run chk_C01]; auto.
-  destruct o as [[m|] now | now | ].
+  destruct o as [[m|] now now2 | now | ].
   - (* push some *)
-    cbn [step]. pose proof (put_inv c now m s U HI) as HP.
-    pose proof (cleanup_ok false c now (put c now m s) _ HP) as HC.
-    destruct (cleanup false c now (put c now m s)) as [s' outs]. destruct HC as (U' & Hc & HI' & _ & _).
+    cbn [step]. pose proof (put_inv c now now2 m s U HI) as HP.
+    pose proof (cleanup_ok false c now2 (put c now m s) _ HP) as HC.
+    destruct (cleanup false c now2 (put c now m s)) as [s' outs]. destruct HC as (U' & Hc & HI' & _ & _).
     rewrite Hc. apply IH; auto.
   - (* push nil *) cbn. apply IH; auto.
   - (* maintain *)
